@@ -154,6 +154,15 @@ def key_array(spec, container="np", index=None, splits=None):
     kind, vals, name = spec["kind"], spec["vals"], spec.get("name")
     if kind == "range":
         return pd.RangeIndex(spec["start"], spec["stop"], spec["step"], name=name)
+    if container == "pa_dict":
+        # a user-built dictionary array with unsigned indices (nulls as null indices)
+        import pyarrow as pa
+
+        labels = sorted({v for v in vals if v is not None}, key=repr)
+        pos = {v: i for i, v in enumerate(labels)}
+        idx = pa.array([None if v is None else pos[v] for v in vals], type=pa.uint8())
+        typ = {"int": pa.int64(), "float": pa.float64(), "str": pa.string()}[kind]
+        return pa.DictionaryArray.from_arrays(idx, pa.array(labels, type=typ))
     if container in ARROW_FAMILY and kind in ("int", "float", "str", "bool"):
         # Arrow-family containers carry logical nulls as Arrow nulls (not NaN)
         import pyarrow as pa
@@ -184,7 +193,7 @@ def key_array(spec, container="np", index=None, splits=None):
     return pour(base, container, index=index, name=name, splits=splits)
 
 
-ARROW_FAMILY = ("pl", "pa", "pa_chunked", "pd_arrow", "pd_arrow_chunked")
+ARROW_FAMILY = ("pl", "pa", "pa_chunked", "pd_arrow", "pd_arrow_chunked", "pa_dict")
 
 
 def pour_arrow(pa_arr, container, index=None, name=None, splits=None):
